@@ -307,6 +307,9 @@ def impl_reencode(b):
         msg = Decoder().process(b, wire_template_data=False)
         s = json.dumps(FlatJsonRenderer().render(msg), **JSON_DUMPS_KWARGS)
         out = Encoder().process(s, wire_template_data=False)
+    except FileNotFoundError as e:
+        # the Encoder looks tables up without the Decoder's fall-back to the default version (normalize=0)
+        return 'no-tables', None
     except Exception as e:  # noqa
         return core.err_tag(e), None
     return 'ok', out.serialized_bytes
